@@ -150,7 +150,22 @@ def cmd_detect(prop, checks):
             viol = [l for l in r.stdout.splitlines() if l.startswith('violation:')]
             res[c] = {'exit': r.returncode, 'wall_s': round(time.time() - t0, 1),
                       'first_violation': viol[0][:300] if viol else None, 'tier': 'quick'}
-            print('%s vs seeded/%s: exit %d %s' % (c, prop, r.returncode, (viol[0][:160] if viol else r.stdout.strip().splitlines()[-1][:160])))
+            # a detection only counts if the very same case passes on the unchanged tree
+            for l in r.stdout.splitlines():
+                if r.returncode == 1 and l.startswith('VIOLATION ') and 'replay=' in l:
+                    rp = l.split('replay=', 1)[1].strip()
+                    if not os.path.isabs(rp):
+                        rp = os.path.join(tmp, 'out', rp)
+                    env2 = dict(os.environ)
+                    env2.pop('VERIF_REPO', None)
+                    env2['VERIF_OUT'] = os.path.join(tmp, 'out2')
+                    r2 = subprocess.run([os.path.join(HERE, 'check'), c, '--replay', rp], env=env2, capture_output=True, text=True, timeout=600)
+                    res[c]['same_case_on_unchanged_tree'] = 'passes' if r2.returncode == 0 else 'FAILS (exit %d)' % r2.returncode
+                    if r2.returncode != 0:
+                        res[c]['exit'] = 'spurious'
+                        print('%s vs seeded/%s: NOT A DETECTION - the reported case also fails on the unchanged tree' % (c, prop))
+                    break
+            print('%s vs seeded/%s: exit %s %s' % (c, prop, res[c]['exit'], (viol[0][:160] if viol else r.stdout.strip().splitlines()[-1][:160])))
         m['detection'] = res
         m['detected_by'] = sorted(c for c, v in res.items() if v['exit'] == 1)
         save_meta(prop, m)
